@@ -35,6 +35,7 @@ type Writer struct {
 	err         error
 	scratch     [4]byte
 	wroteHeader bool
+	closed      bool
 }
 
 // NewWriter creates a new Writer.
@@ -88,6 +89,7 @@ func (z *Writer) Reset(w io.Writer) {
 	z.err = nil
 	z.scratch = [4]byte{}
 	z.wroteHeader = false
+	z.closed = false
 }
 
 // writeHeader writes the ZLIB header.
@@ -182,6 +184,10 @@ func (z *Writer) Close() error {
 	if z.err != nil {
 		return z.err
 	}
+	if z.closed {
+		return nil
+	}
+	z.closed = true
 	z.err = z.compressor.Close()
 	if z.err != nil {
 		return z.err
